@@ -103,6 +103,16 @@ func (e *Engine) info(fn *ssa.Function) *fnInfo {
 			fi.pkg = o.Pkg.Pkg.Path()
 		}
 	}
+	if fi.pkg == "" && fn.Signature != nil && fn.Signature.Recv() != nil {
+		// synthetic method wrappers have no package of their own: use the receiver type's
+		rt := fn.Signature.Recv().Type()
+		if p, ok := rt.(*types.Pointer); ok {
+			rt = p.Elem()
+		}
+		if n, ok := rt.(*types.Named); ok && n.Obj().Pkg() != nil {
+			fi.pkg = n.Obj().Pkg().Path()
+		}
+	}
 	e.fns[fn] = fi
 	idx := map[ssa.Value]int{}
 	n := 0
